@@ -25,10 +25,12 @@ RULE = (
     "consume() == tuple returned by Job.enqueue() field by field; the payload a worker resolves and the actor's arguments "
     "(Basic and Pydantic converter) == independently JSON-normalised arguments; decode(encode(x)) == x for Parameters, "
     "Delay/Result/RetriesProperties, ArgsBucket, ResultBucket with durations up to 100 years at microsecond precision; Redis "
-    "message names of distinct keys differ and parse back. non-trivial = a non-default setting or a structured value was used; "
+    "message names of distinct keys differ and parse back. Sequence mode: one worker processes 2-6 jobs enqueued one after the "
+    "other, several reusing an explicit args_id (and message id) with other arguments, some failing once and retried; every "
+    "execution must receive its own job's arguments. non-trivial = a non-default setting or a structured value was used; "
     "distinct = distinct scenario fingerprints (the interleaving hardly varies)."
 )
-SHRINK_LISTS = ()
+SHRINK_LISTS = ("jobs",)
 
 
 @dataclasses.dataclass
@@ -140,6 +142,17 @@ def _id(rng):
 def gen(rng, broker, tier):
     if rng.random() < 0.3:
         return {"mode": "codec", "cases": rng.randint(20, 60), "sub": rng.getrandbits(32), "knobs": {"step_cost": 0}}
+    if rng.random() < 0.2:
+        ids = [_id(rng), _id(rng)]
+        jobs = []
+        for i in range(rng.randint(2, 6)):
+            jobs.append({"args": {"v": _rand_value(rng), "w": _rand_value(rng)},
+                         "args_id": rng.choice([None, ids[0], ids[0], ids[1]]), "fail_first": rng.random() < 0.25,
+                         "id": rng.choice([None, None, "same"])})
+        return {"mode": "sequence", "jobs": jobs, "conv": rng.choice(["basic", "pydantic"]),
+                "buckets": rng.choice(["mem", "mem", "redis"]) if broker == "redis" else "mem",
+                "knobs": {"step_cost": rng.choice([0, 1]), "net": {"lat_lo": 50, "lat_hi": rng.choice([300, 3000]),
+                                                                    "frag_p": rng.choice([0, 0.5]), "max_seg": rng.choice([1 << 30, 64])}}}
     sc = {"mode": "roundtrip", "name": _name(rng), "queue": _name(rng), "id": rng.choice([None, _id(rng), _id(rng)]),
           "prio": rng.choice([0, 5, 9]), "args": {"v": _rand_value(rng), "w": _rand_value(rng)} if rng.random() < 0.85 else None,
           "conv": rng.choice(["basic", "pydantic"]),
@@ -264,6 +277,83 @@ async def _roundtrip(sim, sc, out):
         probe(out, "fragmented-stream")
 
 
+async def _sequence(sim, sc, out):
+    """one worker processes a sequence of jobs, several of which reuse the same arguments id (one after the other) with
+    other arguments; every execution receives the arguments of its own job"""
+    from typing import Any
+
+    r = env.repid
+    b = sc["broker"]
+    world = await World(sim, b, nodes=("w", "p"), buckets=sc["buckets"], knobs=sc.get("knobs")).setup()
+    connp, connw = world.conn("p"), world.conn("w")
+    V = out["violations"]
+    calls: list = []
+
+    async def act(i=None, v=None, w=None):
+        calls.append((i, {"v": v, "w": w}))
+        if sc["jobs"][i]["fail_first"] and sum(1 for c in calls if c[0] == i) == 1:
+            raise ValueError("first attempt fails")
+        return i
+
+    act.__annotations__ = {"i": int, "v": Any, "w": Any}
+    router = r.Router()
+    conv = {"basic": r.BasicConverter, "pydantic": r.PydanticConverter}[sc["conv"]]
+    router.actor(act, name="act", queue="q", converter=conv, retry_policy=lambda retry_number=1: timedelta(0))
+    await sim.loop.spawn("p", r.Queue("q", _connection=connp).declare())
+    n_exec = sum(2 if j["fail_first"] else 1 for j in sc["jobs"])
+    w = r.Worker(routers=[router], messages_limit=n_exec, graceful_shutdown_time=3.0, handle_signals=[], _connection=connw)
+    wt = sim.loop.spawn("w", w.run())
+
+    async def producer():
+        for i, j in enumerate(sc["jobs"]):
+            args = {"i": i, **{k: _materialise(x) for k, x in j["args"].items()}}
+            kw = {}
+            if j["args_id"] is not None:
+                kw["args_id"] = j["args_id"]
+            if j["id"] is not None:
+                kw["id_"] = "fixed-id"
+            job = r.Job("act", queue="q", args=args, use_args_bucketer=True, retries=1 if j["fail_first"] else 0,
+                        store_result=False, _connection=connp, **kw)
+            await job.enqueue()
+            need = 2 if j["fail_first"] else 1
+            for _ in range(400):
+                if sum(1 for c in calls if c[0] == i) >= need:
+                    break
+                await asyncio.sleep(0.05)
+            await asyncio.sleep(0.05)
+
+    await sim.loop.spawn("p", producer())
+    try:
+        await asyncio.wait_for(asyncio.shield(wt), timeout=30)
+    except asyncio.TimeoutError:
+        wt.cancel()
+    for i, j in enumerate(sc["jobs"]):
+        want = _normalise({k: _materialise(x) for k, x in j["args"].items()})
+        mine = [c[1] for c in calls if c[0] == i]
+        need = 2 if j["fail_first"] else 1
+        reused = j["args_id"] is not None and any(x["args_id"] == j["args_id"] for x in sc["jobs"][:i])
+        tag = "reused-args-id" if reused else "fresh-args-id"
+        if len(mine) != need:
+            total_need = sum(2 if x["fail_first"] else 1 for x in sc["jobs"])
+            if len(mine) > need and len(calls) <= total_need:
+                # as many executions as expected overall, but some carried this job's arguments instead of their own
+                V.append(violation("arguments-differ", f"C07/{b}/sequence/execution-received-the-arguments-of-an-earlier-job", job=i,
+                                   calls=str([c[0] for c in calls])[:300]))
+            else:
+                V.append(violation("executions", f"C07/{b}/sequence/job-executed-{len(mine)}-times-instead-of-{need}/{tag}", job=i,
+                                   calls=str(calls)[:300]))
+            break
+        for m in mine:
+            if m != want:
+                V.append(violation("arguments-differ", f"C07/{b}/sequence/actor-arguments-differ/{tag}", job=i, got=str(m)[:200],
+                                   want=str(want)[:200]))
+                break
+    out["nontrivial"] = True
+    if any(j["args_id"] is not None and any(x["args_id"] == j["args_id"] for x in sc["jobs"][:i]) for i, j in enumerate(sc["jobs"])):
+        probe(out, "args-id-reused-by-a-later-job")
+    out["states"].append(f"seq-{len(sc['jobs'])}-{sc['buckets']}")
+
+
 async def _codec(sim, sc, out):
     import random
 
@@ -328,7 +418,7 @@ async def _codec(sim, sc, out):
 
 def run(sc):
     sc.setdefault("broker", "mem")
-    out = execute(_codec if sc["mode"] == "codec" else _roundtrip, sc, step_cap=1_000_000, wall_s=90)
+    out = execute({"codec": _codec, "sequence": _sequence}.get(sc["mode"], _roundtrip), sc, step_cap=1_000_000, wall_s=90)
     if out["abort"]:
         out["violations"].append(violation("abort", f"C07/{sc['broker']}/abort-{out['abort']['kind']}", detail=out["abort"]["detail"]))
     # distinctness: the interleaving hardly varies, count distinct scenario fingerprints instead
